@@ -50,7 +50,14 @@ pub fn build_lib(case: &DetCase) -> Lib {
     let mut lib = Lib::new();
     for (i, spec) in case.notes.iter().enumerate() {
         let dir = crate::pathalg::dir_of(&key_of(i));
-        let mut t = format!("# {}\n\n", title_text(spec.title as usize));
+        // title indices from 230: the title holds a link to another note of the library root
+        // (a title is then made of another note's title: an order dependence would show)
+        let linked_title = if spec.title >= 230 {
+            (0..n).map(|j| key_of((i + 1 + j) % n)).find(|k| !k.contains('/') && *k != key_of(i)).map(|k| format!("About [old]({}) topic", k))
+        } else {
+            None
+        };
+        let mut t = format!("# {}\n\n", linked_title.unwrap_or_else(|| title_text(spec.title as usize).to_string()));
         t.push_str(&format!("text of note {} ", i));
         // inline links are generated in root notes only (they are keyed by their raw url)
         if dir.is_empty() {
@@ -168,7 +175,7 @@ impl Property for C16 {
         300
     }
     fn strategy(&self, _features: &Features, _tier: Tier) -> BoxedStrategy<DetCase> {
-        let note = (prop_oneof![3 => 0u8..8, 1 => 200u8..206], vec(0u16..400, 0..3), vec(0u16..400, 0..3), 0u8..4, 0u8..6)
+        let note = (prop_oneof![6 => 0u8..8, 2 => 200u8..206, 1 => 230u8..232], vec(0u16..400, 0..3), vec(0u16..400, 0..3), 0u8..4, 0u8..6)
             .prop_map(|(title, block_refs, inline_links, subs, dir)| NoteSpec { title, block_refs, inline_links, subs, dir });
         (vec(note, 20..160), vec(0u16..400, 0..40), prop_oneof![Just(String::new()), Just(".md".to_string())])
             .prop_map(|(notes, perm, ext)| DetCase { notes, perm, ext })
